@@ -33,10 +33,10 @@ reg("C08", "fault_enumeration",
     "A run is non-trivial when the faulted position was actually reached and answered by the scripted error "
     "(or, for F2n, when an object was polled 20 times); distinct = distinct normalised trace hashes among those.",
     quick=[("F2p", 100000), ("F2n", 100000)],
-    thorough=[("F2p", 100000), ("F2n", 100000), ("F2q", 20000)],
+    thorough=[("F2p", 100000), ("F2n", 100000), ("F2q", 100000)],
     assumptions=["error answers to GETs (directory, newNonce) are outside the statement (it speaks of nonces, i.e. POSTs)",
                  "accountDoesNotExist on newOrder/account/keyChange is the C11 re-registration flow, modelled as such"],
-    exhaustive_families=["F2p", "F2n"])
+    exhaustive_families=["F2p", "F2n", "F2q"])
 
 reg("C03", "fault_enumeration",
     "F2: exhaustive single-fault grid: 4 base plans (kp_reuse on/off x matching pair pre-existing or not) x 14 request positions "
